@@ -165,6 +165,14 @@ where
     }
 
     fn exit(&self, span: &span::Id) {
+        // If the registry gives back the span's last reference here, the span
+        // is closed only after every subscriber has seen the exit.
+        #[cfg(all(feature = "registry", feature = "std"))]
+        let subscriber = &self.inner as &dyn Collect;
+        #[cfg(all(feature = "registry", feature = "std"))]
+        let _guard = subscriber
+            .downcast_ref::<Registry>()
+            .map(|registry| registry.start_exit(span));
         self.inner.exit(span);
         self.subscriber.on_exit(span, self.ctx());
     }
